@@ -54,6 +54,13 @@ Open Scope Z_scope.
 
 Definition addr := N.
 Definition GOV : addr := 100%N.
+(** The marker module account (the coin pool mints and burns pass through).  Like every module
+    account it is a BLOCKED address of the bank: MsgSend, MsgWithdrawRequest and MsgTransferRequest
+    refuse it as receiver (BlockedAddr); the governance routes (WithdrawEscrow proposal,
+    SupplyIncrease proposal with a target) use SendCoins directly and do not.  Coins of the denom
+    may therefore sit in it (also from genesis); mints and burns pass THROUGH it and leave them alone. *)
+Definition MODULE : addr := 99%N.
+Definition blocked (a : addr) : bool := N.eqb a MODULE || N.eqb a GOV.
 
 (** ** Access rights: a bit mask, bit i = Access enum value i+1 (accessgrant.proto). *)
 Inductive right := RMint | RBurn | RDeposit | RWithdraw | RDelete | RAdmin | RTransfer | RForce.
@@ -330,6 +337,7 @@ Definition step_opt (s : state) (o : op) : option state :=
       guard (has m caller RWithdraw) ;;
       guard (negb (N.eqb to (esc s) && is_restricted (ty m)) || has m caller RDeposit) ;;
       guard (status_eqb (st m) Active) ;;
+      guard (negb (blocked to)) ;;
       move s (esc s) to amt
   | OCancel caller =>
       m <- mk s ;;
@@ -364,6 +372,7 @@ Definition step_opt (s : state) (o : op) : option state :=
       guard (has m admin RTransfer || has m admin RForce) ;;
       guard (negb (N.eqb to (esc s)) || has m admin RDeposit) ;;
       guard (N.eqb admin from || (forced m && has m admin RForce) || az) ;;   (* else the authz grant decides *)
+      guard (negb (blocked to)) ;;
       move s from to amt
   | OGrant caller grantee rs =>
       m <- mk s ;;
@@ -430,6 +439,7 @@ Definition step_opt (s : state) (o : op) : option state :=
       guard (validate_at (esc s) m') ;; Some (set_mk s (Some m'))
   | OSend from to amt =>
       guard (0 <? amt) ;;
+      guard (negb (blocked to)) ;;                                  (* bank MsgSend: BlockedAddr(to) *)
       guard (send_allowed s from to) ;;
       move s from to amt
   | OMove from to amt =>
